@@ -1,7 +1,7 @@
 """C18 - @import is replaced by a faithful placeholder (structural half)."""
 from rules import csspacks as cp
 
-RULE = 'C18.encode: the placeholder comment is `<sign> <percent-encoded path>` built from the decoded string token (so `*/` cannot occur). C18.wrap: layer()/supports() become the at-rule of the same name, media conditions @media. C18.pair: every wrapper block opened is pushed on the close stack, the stack is drained after the comment, and a failing exit closes what it opened (C08.txn). C18.position: imports after other rules are flagged; without a sign @import passes through.'
+RULE = 'C18.ser: string tokens (and every token kind except integer numerics) are serialised by cssparser to_css, so a passed-through path keeps its value. C18.pair/every-exit-drains: every exit of the import rewriter after a wrapper was opened is directly preceded by a loop closing all open wrappers. C18.encode: the placeholder comment is `<sign> <percent-encoded path>` built from the decoded string token (so `*/` cannot occur). C18.wrap: layer()/supports() become the at-rule of the same name, media conditions @media. C18.pair: every wrapper block opened is pushed on the close stack, the stack is drained after the comment, and a failing exit closes what it opened (C08.txn). C18.position: imports after other rules are flagged; without a sign @import passes through.'
 EXPLANATION = ("The token-dispatch loops of the stylesheet compiler are located by role in the expanded syntax tree and their arms, "
                "flags and field writers (MIR) are checked against the rule; no stylesheet is ever transformed.")
 ASSUMPTIONS = ["cssparser tokenises and serialises per CSS Syntax 3", "refs/css_refs.json lists rule-bearing at-rules and math functions correctly",
@@ -14,4 +14,5 @@ def run(ctx):
         return obs
     obs += cp.import_rules(ctx, 'C18')
     obs += cp.txn_rule(ctx, 'C18')
+    obs += [o for o in cp.int_rule(ctx, 'C18', writer_only=True) if '.ser/' in o['key']]
     return obs
